@@ -8,14 +8,19 @@ bools := n  b₁ … b_n
 ops:
   mask    <pts:mat> <cols:mat> <tcs:mat> <tris> <mask:bools>
   trimask <pts:mat> <cols:mat> <tcs:mat> <tris> <trimask:bools>
-        → ok T k a b c … P r c … C r c … X r c …      | err shape|empty|index
+        → ok T k a b c … P r c … C r c … X r c … G m lo hi … B bits…     | err shape|empty|index
+          (G = graphEdges, B = boundaryCount of the masked mesh)
   geom2   <pts:mat n×2> <tris> a11 a12 a21 a22 t1 t2      (geometry of the mesh moved by p ↦ A p + t)
-        → ok O <A orthogonal 0/1> D <det A> A k areas… E 3k squared-edge-lengths…
+        → ok O <A orthogonal 0/1> D <det A> A k areas… E 3k squared-edge-lengths… U m squared-unique-edge-lengths…
   geom3   <pts:mat n×3> <tris> a11 … a33 t1 t2 t3
-        → ok O o D det A k squared-areas… E 3k squared-edge-lengths… N k raw-normals(3k numbers)…
-  vnorm   <pts-count n> <tris> <fn:mat k×3>   → ok n sums(3n numbers)
+        → ok O o D det A k squared-areas… E 3k squared-edge-lengths… N k raw-normals(3k numbers)… U m squared-unique-edge-lengths…
+  vnorm   <pts-count n> <tris> <fn:mat k×3>   → ok n sums(3n numbers)     (the coded three-pass scatter-add)
   bound   <n> <tris>  → coded (ok bits… | err index) ; count bits… ; spec bits…
   uedges  <tris>      → ok m lo hi …
+  grid    r c         → ok <tris>            (subsampled_grid_triangulation((r, c)))
+  hist    <pts:mat> <cols:mat> <tcs:mat> <tris> <nops> (e i | b i | m i <bools> | t i <bools> | c i)…
+        → one observation per call, separated by ` ; `:  E k a b … | B bits… | M <mesh reply> | err … | noobj
+          (`runH false`: the history as coded, starting from one freshly built object)
 -/
 import MenpoModel.Core.Codec
 import MenpoModel.Core.C17Mesh
@@ -40,11 +45,31 @@ def fmtErr : Err → String
 def fmtMesh (r : Except Err (Mesh (List Rat) (List Rat) (List Rat))) : String :=
   match r with
   | .error e => fmtErr e
-  | .ok R => s!"ok T {fmtTris R.tris} P {fmtRows R.pts} C {fmtRows R.cols} X {fmtRows R.tcs}"
+  | .ok R =>
+    let es := graphEdges R.tris
+    s!"ok T {fmtTris R.tris} P {fmtRows R.pts} C {fmtRows R.cols} X {fmtRows R.tcs} G {es.length}"
+      ++ String.join (es.map fun e => s!" {e.1} {e.2}") ++ " B"
+      ++ String.join ((boundaryCount R.pts.length R.tris).map fun b => if b then " 1" else " 0")
 
 def pMesh : P (Mesh (List Rat) (List Rat) (List Rat)) := do
   let pts ← pMat; let cols ← pMat; let tcs ← pMat; let ts ← pTris
   pure { pts := pts, cols := cols, tcs := tcs, tris := ts }
+
+def pOp : P HOp := do
+  let t ← tok
+  if t == "e" then (do let i ← pNat; pure (HOp.edges i))
+  else if t == "b" then (do let i ← pNat; pure (HOp.bound i))
+  else if t == "m" then (do let i ← pNat; let m ← pList pBool; pure (HOp.mask i m))
+  else if t == "t" then (do let i ← pNat; let m ← pList pBool; pure (HOp.trimask i m))
+  else if t == "c" then (do let i ← pNat; pure (HOp.copy i))
+  else failure
+
+def fmtObs : Obs (List Rat) (List Rat) (List Rat) → String
+  | .edges l => s!"E {l.length}" ++ String.join (l.map fun e => s!" {e.1} {e.2}")
+  | .bits l => "B" ++ String.join (l.map fun b => if b then " 1" else " 0")
+  | .made M => "M " ++ fmtMesh (.ok M)
+  | .err e => fmtErr e
+  | .noobj => "noobj"
 
 def toV2 (r : List Rat) : V2 := ⟨r.getD 0 0, r.getD 1 0⟩
 def toV3 (r : List Rat) : V3 := ⟨r.getD 0 0, r.getD 1 0, r.getD 2 0⟩
@@ -65,30 +90,31 @@ def step (toks : List String) : String :=
     match runP (do let pts ← pMat; let ts ← pTris; let a ← pMany pRat 6; pure (pts, ts, a)) rest with
     | some (pts, ts, [a11, a12, a21, a22, t1, t2]) =>
       let A : M2 := ⟨a11, a12, a21, a22⟩
-      let ps := pts.map (fun r => aff2 A ⟨t1, t2⟩ (toV2 r))
-      let tri := ts.filterMap (getTri ps)
-      if tri.length ≠ ts.length then "err index" else
-      s!"ok O {b01 (decide A.IsOrtho)} D {fmtRat A.det} A {tri.length}"
-        ++ fmtQs (tri.map fun (a, b, c) => area2 a b c)
-        ++ s!" E {3 * tri.length}" ++ fmtQs (tri.flatMap fun (a, b, c) => edgeSq2 a b c)
+      let ps := (pts.map toV2).map (aff2 A ⟨t1, t2⟩)
+      if (triCorners ps ts).length ≠ ts.length then "err index" else
+      let ue := uniqueEdgeSq2 ps ts
+      s!"ok O {b01 (decide A.IsOrtho)} D {fmtRat A.det} A {ts.length}"
+        ++ fmtQs (meshAreas2 ps ts)
+        ++ s!" E {3 * ts.length}" ++ fmtQs (meshEdgeSq2 ps ts)
+        ++ s!" U {ue.length}" ++ fmtQs ue
     | _ => "bad-op"
   | "geom3" :: rest =>
     match runP (do let pts ← pMat; let ts ← pTris; let a ← pMany pRat 12; pure (pts, ts, a)) rest with
     | some (pts, ts, [a11, a12, a13, a21, a22, a23, a31, a32, a33, t1, t2, t3]) =>
       let A : M3 := ⟨a11, a12, a13, a21, a22, a23, a31, a32, a33⟩
-      let ps := pts.map (fun r => aff3 A ⟨t1, t2, t3⟩ (toV3 r))
-      let tri := ts.filterMap (getTri ps)
-      if tri.length ≠ ts.length then "err index" else
-      s!"ok O {b01 (decide A.IsOrtho)} D {fmtRat A.det} A {tri.length}"
-        ++ fmtQs (tri.map fun (a, b, c) => areaSq3 a b c)
-        ++ s!" E {3 * tri.length}" ++ fmtQs (tri.flatMap fun (a, b, c) => edgeSq3 a b c)
-        ++ s!" N {tri.length}" ++ fmtQs (tri.flatMap fun (a, b, c) =>
-              let n := faceNormalRaw a b c; [n.x, n.y, n.z])
+      let ps := (pts.map toV3).map (aff3 A ⟨t1, t2, t3⟩)
+      if (triCorners ps ts).length ≠ ts.length then "err index" else
+      let ue := uniqueEdgeSq3 ps ts
+      s!"ok O {b01 (decide A.IsOrtho)} D {fmtRat A.det} A {ts.length}"
+        ++ fmtQs (meshAreasSq3 ps ts)
+        ++ s!" E {3 * ts.length}" ++ fmtQs (meshEdgeSq3 ps ts)
+        ++ s!" N {ts.length}" ++ fmtQs ((meshFaceNormalsRaw ps ts).flatMap fun n => [n.x, n.y, n.z])
+        ++ s!" U {ue.length}" ++ fmtQs ue
     | _ => "bad-op"
   | "vnorm" :: rest => match runP (do let n ← pNat; let ts ← pTris; let fn ← pMat; pure (n, ts, fn)) rest with
     | none => "bad-op"
     | some (n, ts, fn) =>
-      let sums := vertexNormalSums n ts (fn.map toV3)
+      let sums := vertexNormalSumsCoded n ts (fn.map toV3)
       s!"ok {sums.length}" ++ fmtQs (sums.flatMap fun v => [v.x, v.y, v.z])
   | "bound" :: rest => match runP (do let n ← pNat; let ts ← pTris; pure (n, ts)) rest with
     | none => "bad-op"
@@ -97,6 +123,14 @@ def step (toks : List String) : String :=
         | .error e => fmtErr e
         | .ok bits => "ok" ++ fmtBits bits
       s!"coded {coded} ; count{fmtBits (boundaryCount n ts)} ; spec{fmtBits (boundarySpec ts)}"
+  | "hist" :: rest =>
+    match runP (do let M ← pMesh; let ops ← pList pOp; pure (M, ops)) rest with
+    | none => "bad-op"
+    | some (M, ops) =>
+      " ; ".intercalate ((runH false [Obj.fresh M] ops).2.map fmtObs)
+  | "grid" :: rest => match runP (do let r ← pNat; let c ← pNat; pure (r, c)) rest with
+    | none => "bad-op"
+    | some (r, c) => "ok " ++ fmtTris (gridTriangulation r c)
   | "uedges" :: rest => match runP pTris rest with
     | none => "bad-op"
     | some ts =>
